@@ -119,6 +119,36 @@ func init() {
 				if passed.Load() != 2 {
 					bad("%d of 2 senders on the unbuffered channel returned", passed.Load())
 				}
+				// a send on an unbuffered channel inside a select: not ready while nobody receives, ready once a
+				// receiver is parked (in a plain receive or in a select), and the value reaches that receiver
+				ub2 := make(chan int)
+				if sel := mc.Select(true, mc.SendCase[int](ub2, 1)); sel.Index != -1 {
+					bad("select sent on an unbuffered channel nobody receives from")
+				}
+				var got1, got2 matomic.Int64
+				mc.Go(func() { got1.Store(int64(mc.Recv(ub2))) })
+				mc.Sleep(int64(time.Second))
+				if sel := mc.Select(true, mc.SendCase[int](ub2, 7)); sel.Index != 0 {
+					bad("select did not send to a parked receiver")
+				}
+				mc.Sleep(int64(time.Second))
+				if got1.Load() != 7 {
+					bad("the parked receiver got %d instead of 7", got1.Load())
+				}
+				other := make(chan int, 1)
+				mc.Go(func() {
+					sel := mc.Select(false, mc.RecvCase[int](other), mc.RecvCase[int](ub2))
+					if sel.Index == 1 {
+						v, _ := mc.Got2[int](ub2, sel)
+						got2.Store(int64(v))
+					}
+				})
+				mc.Sleep(int64(time.Second))
+				mc.Select(false, mc.SendCase[int](ub2, 9))
+				mc.Sleep(int64(time.Second))
+				if got2.Load() != 9 {
+					bad("the receiver parked in a select got %d instead of 9", got2.Load())
+				}
 			}
 			u.Check = func(r *mc.Result) mc.Verdict {
 				v := mc.Verdict{Outcome: "ok", Nontrivial: true, Sample: "shims"}
